@@ -41,7 +41,7 @@ var runePayloadsInvalid = []int32{-1, 0xd800, 0xdfff, 0x110000, -2147483648, 214
 var bytePayloadsValid = []byte{'a', '\n', ' ', '?', 0}
 var bytePayloadsInvalid = []byte{0xe2, 0x80, 0xb9, 0xba, 0xff, 0xc3}
 var intPayloads = []int64{0, -5, 123456, -9223372036854775808, 9223372036854775807}
-var floatPayloads = []float64{0, -1.5, 1e100, 3}
+var floatPayloads = []float64{0, -1.5, 1e100, 3, 1073741824, float64(float32(0.1)), 0.1} // incl. float64 values that are exactly representable as float32
 var printForms = []string{"str", "safe", "rs", "int", "mixed", "none"}
 
 func uniq(tmpl string, pos int) string {
